@@ -43,6 +43,7 @@ CaseProps ==
             /\ NilIsNoop(mine, other)
             /\ NewestWins(mine, other)
             /\ RemovalWinsTies(mine, other)
+            /\ \A i \in Inst : ZeroTimestamp(other[i])
             /\ ResolveDeterministic(Merge(mine, other, cas, now).pre)
             /\ LeftHasNoTokens(Merge(mine, other, cas, now).result)
             /\ TokenUnique(mine) => /\ CollisionRule(mine, other, cas, now)
